@@ -1625,6 +1625,12 @@ impl Sim {
             if self.act_state(&self.acts[i]) == St::Closed {
                 continue;
             }
+            // A completed order carrying an unsettled builder fee (recorded here by the C32 charging stub)
+            // is closable only after the permissionless settlement; a cooperative owner settles first.
+            if self.acts[i].builder.is_some() && crate::c32::recorded_fee(&self.w, &self.acts[i].key).unwrap_or(0) > 0 {
+                self.step(&Step::SettleBuilderFee { slot: i, twice: false }, obs);
+                obs.probe("c23_settled_builder_fee_before_close");
+            }
             self.close(i, By::Owner, obs);
             if obs.should_stop() {
                 return;
